@@ -587,7 +587,7 @@ func (d *Decoder) Decode() (*Message, error) {
 		return nil, errorf("decode: read header: %v", err)
 	}
 	maxSeg := SegmentID(binary.LittleEndian.Uint32(d.wordbuf[:]))
-	if maxSeg > maxStreamSegments {
+	if maxSeg >= maxStreamSegments {
 		return nil, newError("decode: too many segments to decode")
 	}
 
